@@ -2,7 +2,7 @@
 
 project(blocks, reprs) is linear in the data, so unit data (one flavour switched on per grid point)
 plus two generic integer rows decide it for arbitrary data of a block layout.  The selections are
-ALL subsets (thorough) / all subsets of size <= 3 or >= 11 (quick) of complete orthogonal bases of
+ALL subsets (thorough) / all subsets of size <= 2 or >= 12 (quick) of complete orthogonal bases of
 the 14-dimensional flavour space:
    pid      the 14 PIDs                     (representations from pid_to_flavor)
    evol     the 14 evolution-basis labels   (representations from evol_to_flavor)
@@ -25,7 +25,7 @@ ID = "C46"
 LEVEL = "exploration"
 TECHNIQUE = "complete subset enumeration of orthogonal flavour bases x block layouts x unit data, exact rational oracle"
 LEVEL_TEXT = (
-    "every subset (thorough; quick: sizes <=3 and >=11) of the PID set, of the evolution labels and of nine "
+    "every subset (thorough; quick: sizes <=2 and >=12) of the PID set, of the evolution labels and of nine "
     "custom complete orthogonal bases is projected out of blocks in four layouts carrying unit and generic "
     "integer data; result compared exactly with the defining conditions of the orthogonal projection; "
     "by linearity in the data this decides the statement for these selections and layouts"
@@ -297,7 +297,7 @@ def run(ctx):
         if ctx.thorough():
             sizes = list(range(15)) if fam in FULL_FAMILIES else [0, 1, 2, 3, 4, 10, 11, 12, 13, 14]
         else:
-            sizes = [0, 1, 2, 3, 11, 12, 13, 14]
+            sizes = [0, 1, 2, 12, 13, 14]
         for lo in range(0, 1 << 14, step):
             cases.append({"family": fam, "lo": lo, "hi": lo + step, "sizes": sizes})
     results = ctx.run_cases(cases, evaluate)
@@ -306,7 +306,7 @@ def run(ctx):
     ctx.exhaustive = True
     ctx.rule = (
         "selections = all subsets "
-        + ("(pid, evol: every size; custom bases: sizes 0-4 and 10-14)" if ctx.thorough() else "of size 0-3 and 11-14")
+        + ("(pid, evol: every size; custom bases: sizes 0-4 and 10-14)" if ctx.thorough() else "of size 0-2 and 12-14")
         + " of 11 complete orthogonal bases of flavour space (14 PIDs via pid_to_flavor, 14 evolution labels via "
         "evol_to_flavor, 9 custom: unified, intrinsic QCD nf=3,4,5, intrinsic QED nf=3,5, q+-, rescaled evolution, "
         "Hadamard); each projected out of 4 blocks (full order, LHAPDF order without t/photon, no data, odd order) "
